@@ -126,5 +126,7 @@ pub mod header {
 pub mod http {
     pub use crate::{HeaderMap, HeaderName, HeaderValue};
     pub use crate::httpmsg::*;
+    pub mod request { pub use crate::httpmsg::RequestParts as Parts; }
+    pub mod response { pub use crate::httpmsg::ResponseParts as Parts; }
     pub mod header { pub use crate::header::*; pub use crate::{HeaderMap, HeaderName, HeaderValue}; }
 }
